@@ -208,7 +208,33 @@ def lib_dict(e, st, a, kw, n):
     return VDict(d)
 
 
+def lib_any_all(which):
+    def f(e, st, a, kw, n):
+        x = a[0]
+        if isinstance(x, VTuple):
+            ts = [e.truth(v) for v in x.items]
+            return VBool((z3.Or(ts) if ts else z3.BoolVal(False)) if which == "any" else (z3.And(ts) if ts else z3.BoolVal(True)))
+        if isinstance(x, (VBoolSeq, VBoolMat)):
+            return e.bool_reduce(x, which)
+        raise Unsupported(which + " over " + type(x).__name__)
+    return f
+
+
+def lib_min_max(which):
+    def f(e, st, a, kw, n):
+        items = list(a[0].items) if len(a) == 1 and isinstance(a[0], VTuple) else list(a)
+        if not items or not all(isinstance(v, VNum) for v in items):
+            raise Unsupported(which + " of non-numbers")
+        r = items[0]
+        for v in items[1:]:
+            x, y = num_pair(r, v)
+            r = VNum(z3.If((x <= y) if which == "min" else (x >= y), x, y))
+        return r
+    return f
+
+
 def install(eng):
+    eng.lib.update({"any": lib_any_all("any"), "all": lib_any_all("all"), "min": lib_min_max("min"), "max": lib_min_max("max")})
     eng.lib.update({
         "len": lib_len, "getattr": lib_getattr, "isinstance": lib_isinstance, "dict": lib_dict, "list": lib_list, "np.asarray": lib_asarray, "np.array": lib_asarray,
         "float": lib_float, "set": lib_set, "zip": lib_zip, "enumerate": lib_enumerate, "range": lib_range, "np.ones_like": lib_np_ones_like, "np.isscalar": lib_np_isscalar,
